@@ -248,6 +248,35 @@ def guard_group(fn, desc, pol):
                     return v if isinstance(v, str) else None
     return None
 
+def _variant_ctors(F, g):
+    """{enum: {variants constructed}} in g and its closures (aggregates and constructor fn items)"""
+    out = {}
+    for h in [g] + F.children(g.path):
+        for bi, si, s in h.stmts():
+            if s[0] == "=" and s[2][0] == "agg" and s[2][1].get("k") == "adt":
+                out.setdefault(s[2][1]["adt"], set()).add(s[2][1].get("variant"))
+        for bi, t in h.calls():
+            for a in t[2]:
+                if a[0] == "c" and a[1].get("k") == "fn" and "::" in a[1]["path"]:
+                    en, v = a[1]["path"].rsplit("::", 1)
+                    if en in F.adts: out.setdefault(en, set()).add(v)
+    return out
+
+def _classifier_context(F, g, depth=0):
+    """True when the Option produced in g is consumed by a number-or-text classification: g itself (or its enclosing function)
+    constructs both the UInt and a text variant of one enum, or g is a helper returning the Option and every caller does."""
+    def both(h):
+        return any("UInt" in vs and (vs & {"Str", "String", "Text"}) for vs in _variant_ctors(F, h).values())
+    top = g
+    while top.kind == "closure" and top.parent and F.fn(top.parent) is not None: top = F.fn(top.parent)
+    if both(top): return True
+    orig = F.fn(top.path) or top
+    if depth >= 2 or not (orig.d.get("ret") or "").startswith("std::option::Option<"): return False
+    cg = mir.CallGraph(F)
+    callers = {f.path for f, b in cg.sites.get(orig.path, ())} | {p for p, a in cg.addr.items() if orig.path in a}
+    callers = [F.fn(p) for p in callers if F.fn(p) is not None]
+    return bool(callers) and all(_classifier_context(F, c, depth + 1) for c in callers)
+
 def constant_fallbacks(F, rep, rule, fns):
     n = 0
     for g in fns:
@@ -278,6 +307,8 @@ def constant_fallbacks(F, rep, rule, fns):
                 uses = [(b2, t2) for b2, t2 in g.calls() if any(a[0] in ("cp", "mv") and a[1][0] == dest for a in t2[2])]
                 if uses and all(mir.call_matches(t2, ("Option::<T>::ok_or",)) for _, t2 in uses):
                     rep.ok(rule, ".ok() re-wrapped by ok_or", sample=site)
+                elif _classifier_context(F, g):
+                    rep.ok(rule, ".ok() inside a number-or-text classification: a failed parse keeps the identifier as text", sample=site, nontrivial_key="classifier:" + key)
                 else:
                     rep.bad(rule, "discarded-error:" + key, "ParseIntError discarded with .ok(): an out-of-range number silently becomes 'absent'", site)
             elif meth == "unwrap_or_else":
@@ -397,6 +428,8 @@ def language_verdict(rep, rule, res, subject, oracles, pair, info, gname):
 
 def closure_pred_name(F, fn, op):
     """name of the char/u8 predicate a closure operand applies to its parameter (e.g. 'is_ascii_digit'), else None"""
+    if op[0] == "c" and op[1].get("k") == "fn":
+        return (op[1].get("resolved") or op[1]["path"]).rsplit("::", 1)[-1]      # `.all(u8::is_ascii_digit)`
     for o in mir.trace_op(fn, op):
         if o.kind == "agg":
             rv = mir.rv_at(o.fn, *o.data)
@@ -425,6 +458,9 @@ def path_facts(F, fn, path, depth=0):
     if not sp.feasible(): return []
     alts = [[]]
     for d, truth, b in sp.facts():
+        if isinstance(truth, bool) and d[0] == "bin":
+            alts = [a + [("cmp:" + str(d[1]), (mir.show(d[2])[:80], mir.show(d[3])[:80]), truth, None)] for a in alts]
+            continue
         if not isinstance(truth, bool) or d[0] != "call": continue
         t = fn.blocks[d[3]]["t"] if len(d) > 3 and isinstance(d[3], int) else None
         name = str(d[1]).rsplit("::", 1)[-1]
@@ -452,17 +488,105 @@ def path_facts(F, fn, path, depth=0):
         alts = [a + [(name, consts, truth, pred)] for a in alts]
     return alts
 
+MAX_DIGITS = {"u8": 2, "u16": 4, "u32": 9, "u64": 19, "u128": 38, "usize": 19}
+
+def _expr_calls(F, e, out, depth=0):
+    """names of all calls in a symbolic expression, including the bodies of closures it mentions"""
+    if not isinstance(e, (tuple, list)) or depth > 12: return
+    if isinstance(e, tuple) and e and e[0] == "call" and isinstance(e[1], str): out.add(e[1])
+    if isinstance(e, tuple) and e and e[0] in ("closure", "fn") and isinstance(e[1], str):
+        c = F.fn(e[1])
+        for h in ([c] + F.children(e[1]) if c is not None else []):
+            for b2, t2 in h.calls(): out.add(mir.callee(t2) or "?")
+    for x in e:
+        if isinstance(x, (tuple, list)): _expr_calls(F, x, out, depth + 1)
+
+def _lossy_value(F, g, bi, paths, payload):
+    """The number stored in UInt is computed with saturating / wrapping arithmetic from a digit string that may be longer than
+    the payload type can hold: such text is accepted and silently stored as a different number."""
+    cap = MAX_DIGITS.get(payload)
+    per_path = []          # (lossy calls, upper bound on the digit count or None) for every feasible path to the construction
+    for p in paths:
+        sp = mir.SymPath(g, p)
+        if not sp.feasible(): continue
+        vals = []
+        for s in g.blocks[bi]["s"]:
+            if s[0] == "=" and s[2][0] == "agg" and s[2][1].get("variant") == "UInt" and s[2][2]: vals.append(sp.op(s[2][2][0]))
+        names = set()
+        for v in vals: _expr_calls(F, v, names)
+        hit = sorted(n.rsplit("::", 1)[-1] for n in names if any(x in n for x in ("::saturating_", "::wrapping_", "::overflowing_", "::unchecked_")))
+        bound = None
+        for d, truth, b in sp.facts():
+            if isinstance(truth, bool) and d[0] == "bin" and d[3][0] == "const" and isinstance(d[3][1], int) and "len(" in mir.show(d[2]):
+                k = d[3][1]
+                if d[1] == "Gt" and not truth: bound = k if bound is None else min(bound, k)
+                elif d[1] == "Ge" and not truth: bound = k - 1 if bound is None else min(bound, k - 1)
+                elif d[1] == "Le" and truth: bound = k if bound is None else min(bound, k)
+                elif d[1] == "Lt" and truth: bound = k - 1 if bound is None else min(bound, k - 1)
+                elif d[1] == "Eq" and truth: bound = k if bound is None else min(bound, k)
+        per_path.append((hit, bound))
+    if not per_path or cap is None: return None
+    # a length bound on the path that keeps the value in range makes saturating arithmetic exact
+    for hit, bound in per_path:
+        if hit and (bound is None or bound > cap):
+            return "the stored number is computed with %s and the digit string may have %s digits (a %s holds every %s-digit number, not every longer one): out-of-range text is accepted and stored as a different number" % (
+                hit, ("up to %d" % bound) if bound is not None else "any number of", payload, cap)
+    # the other direction: a digit-count limit (on every path) below the longest representable number turns numbers the type can
+    # hold into text (they then order and convert as text)
+    if all(bound is not None for hit, bound in per_path):
+        widest = max(bound for hit, bound in per_path)
+        if widest < cap + 1:
+            return "only digit strings of up to %d digits are classified as numbers, but a %s holds numbers of %d digits: those are treated as text (ordering, labels and conversion change for them)" % (widest, payload, cap + 1)
+    return None
+
+INT_BITS = {"u8": 8, "u16": 16, "u32": 32, "u64": 64, "usize": 64, "u128": 128, "i8": 8, "i16": 16, "i32": 32, "i64": 64, "isize": 64, "i128": 128}
+
+def narrowing_casts(F, rep, rule, prefixes, what):
+    """No integer `as` cast to a narrower type in the given modules: such a cast keeps the low bits of an out-of-range value
+    (a number silently becomes another number) where a checked conversion would reject it.  A cast whose source is compared
+    with something on every path to it may be range-checked: that is left undecided, not reported."""
+    n = 0; seen_fns = 0
+    for p, g in F.fns.items():
+        if not any(p.startswith(x) for x in prefixes) or "::tests" in p or "test_utils" in p or "::_::" in p: continue
+        seen_fns += 1
+        for bi, si, s in g.stmts():
+            if s[0] != "=" or s[2][0] != "cast" or s[2][1] != "IntToInt" or len(s[2]) < 5: continue
+            src, dst = s[2][3], s[2][4]
+            if src not in INT_BITS or dst not in INT_BITS or INT_BITS[dst] >= INT_BITS[src]: continue
+            if g.blocks[bi].get("exp"): continue          # inside a macro expansion (derive, format_args)
+            n += 1
+            site = "%s bb%d line %s" % (g.where(), bi, g.blocks[bi]["line"])
+            key = "%s:%s->%s" % (p.replace("crate::", ""), src, dst)
+            srcs = {o.key() for o in mir.trace_op(g, s[2][2])}
+            checked = False
+            for d, pol, dd in mir.guards_of(g, bi):
+                if d[0] in ("bin", "cmp") or (d[0] == "call" and any(x in str(d[1]) for x in ("::le", "::lt", "::ge", "::gt", "try_from", "contains"))):
+                    checked = True
+            if checked: rep.undecided(rule, "guarded-narrowing-cast:" + key, "a %s value is cast to %s under a comparison the rule does not evaluate" % (src, dst), site)
+            else: rep.bad(rule, "narrowing-cast:" + key, "%s: a %s value is cast to %s with `as` and no range check on the way: a value beyond %s keeps only its low bits (a number is silently replaced by another number)" % (what, src, dst, dst), site)
+    if n == 0:
+        rep.ok(rule, "no narrowing integer `as` cast in %d functions of %s" % (seen_fns, [x.replace("crate::", "") for x in prefixes]), nontrivial_key="nocast" + ",".join(prefixes))
+    rep.floor(rule, "functions searched for narrowing casts", seen_fns, 5)
+
 def numeric_classification(F, rep, rule, module, enums, floor):
     """Every construction of <enum>::UInt from parsed text happens only when the text is all ASCII digits and canonical
     (equal to "0" or not starting with '0'), so that printing the number gives the text back."""
     n = 0
     sites = []
+    # the parser's functions and every crate-local function they reach (a constructor such as `From<&str>` may live
+    # beside the type rather than in the parser module)
+    cg = mir.CallGraph(F)
+    roots = [p for p in F.fns if p.startswith(module)]
+    scope_fns = {p for p in cg.closure(roots, generic=False) if p in F.fns}
+    scope_fns |= {p for p in F.fns if any(p.startswith(q + "::{closure") for q in scope_fns)}
     for p, g in F.fns.items():
-        if not p.startswith(module): continue
+        if p not in scope_fns: continue
         for bi, si, s in g.stmts():
             if s[0] != "=" or s[2][0] != "agg": continue
             kd = s[2][1]
             if kd.get("k") != "adt" or kd.get("variant") not in ("UInt",) or kd["adt"].rsplit("::", 1)[-1] not in enums: continue
+            # a plain constructor outside the parser (payload handed in by the caller) classifies nothing itself
+            if not p.startswith(module) and s[2][2] and all(o.kind == "param" for o in mir.trace_op(g, s[2][2][0])): continue
             sites.append((g, bi, kd["adt"].rsplit("::", 1)[-1]))
         for bi, t in g.calls():
             for a in t[2]:
@@ -475,14 +599,32 @@ def numeric_classification(F, rep, rule, module, enums, floor):
         # a construction inside a nested closure (e.g. `.map(|n| UInt(n.into()))`) is governed by the conditions
         # under which that closure is created in its parent
         g, bi = g0, bi0
-        for _ in range(3):
-            here = [p for p in mir.enum_paths(g, limit=5000, stop_blocks=[bi]) if p[-1] == bi]
-            if any(any(m == "all" for m, c, tr, pr in f_) for p in here for f_ in path_facts(F, g, p)): break
-            par = F.fn(g.parent) if g.kind == "closure" and g.parent else None
-            if par is None: break
-            made = [b2 for b2, s2, st in par.stmts() if st[0] == "=" and st[2][0] == "agg" and st[2][1].get("k") == "closure" and st[2][1]["path"] == g.path]
-            if not made: break
-            g, bi = par, made[0]
+        def live_paths(fn_, b_):
+            """feasible paths to the site; for `opt.map(UInt)` only those on which the receiver is not a known None / Err"""
+            out = []
+            for p in mir.enum_paths(fn_, limit=5000, stop_blocks=[b_]):
+                if p[-1] != b_: continue
+                t_ = fn_.blocks[b_]["t"]
+                if t_[0] == "call" and (mir.callee(t_) or "").rsplit("::", 1)[-1] == "map" and t_[2]:
+                    recv = mir.SymPath(fn_, p).op(t_[2][0])
+                    if recv[0] == "agg" and str(recv[1]).rsplit("::", 1)[-1] in ("None", "Err"): continue
+                out.append(p)
+            return out
+        has_all = lambda fn_, b_: any(any(m == "all" for m, c, tr, pr in f_) for p in live_paths(fn_, b_) for f_ in path_facts(F, fn_, p))
+        try:
+            for _ in range(3):
+                if has_all(g, bi): break
+                # ... or by a local helper the function calls (`match numeric_identifier(part) { Some(v) => UInt(v), .. }`)
+                inl = mir.inlined(F, g, depth=3)
+                same = bi < len(inl.blocks) and inl.blocks[bi]["t"][0] == g.blocks[bi]["t"][0] and inl.blocks[bi].get("from") is None
+                if same and has_all(inl, bi): g = inl; break
+                par = F.fn(g.parent) if g.kind == "closure" and g.parent else None
+                if par is None: break
+                made = [b2 for b2, s2, st in par.stmts() if st[0] == "=" and st[2][0] == "agg" and st[2][1].get("k") == "closure" and st[2][1]["path"] == g.path]
+                if not made: break
+                g, bi = par, made[0]
+        except mir.TooManyPaths:
+            pass
         # the integer type parsed must be the variant's payload type (a narrower parse turns large numbers into text)
         adt = [a for pth, a in F.adts.items() if pth.rsplit("::", 1)[-1] == ename]
         payload = None
@@ -497,19 +639,30 @@ def numeric_classification(F, rep, rule, module, enums, floor):
         elif payload in INT_TYPES and ptys:
             rep.ok(rule, "numeric text parsed as %s = payload type of %s::UInt" % (payload, ename), nontrivial_key=key + "ty")
         try:
-            paths = [p for p in mir.enum_paths(g, limit=5000, stop_blocks=[bi]) if p[-1] == bi]
+            paths = live_paths(g, bi)
         except mir.TooManyPaths:
             rep.undecided(rule, "unrecognised-shape:" + key, "too many paths", site); continue
-        bad = None; nalt = 0
+        bad = None; nalt = 0; unsure = None
         for p in paths:
             for facts_ in path_facts(F, g, p):
                 nalt += 1
                 digits = any(m in ("all",) and tr and pr == "is_ascii_digit" for m, c, tr, pr in facts_)
+                other_pred = [pr for m, c, tr, pr in facts_ if m in ("all", "any") and pr != "is_ascii_digit"]
                 canonical = any((m == "eq" and "0" in c and tr) or (m == "starts_with" and "0" in c and not tr) for m, c, tr, pr in facts_)
+                # the same test spelled on bytes: a single byte, or first byte != b'0'
+                canonical = canonical or any((m in ("cmp:Gt",) and "len(" in c[0] and c[1] == "1" and not tr) or (m == "cmp:Eq" and c[0].startswith("index(") and c[1] == "48" and not tr)
+                                             or (m == "cmp:Ne" and c[0].startswith("index(") and c[1] == "48" and tr) for m, c, tr, pr in facts_)
+                cmps = [m for m, c, tr, pr in facts_ if m.startswith("cmp:") or m.startswith("unknown-helper")]
                 if ename == "LocalSegment": canonical = True      # PEP 440 local numbers are normalised, not reproduced
-                if not digits: bad = "not guarded by all(is_ascii_digit): %s" % [(m, tr, pr) for m, c, tr, pr in facts_]
-                elif not canonical: bad = "digit strings with leading zeros are classified as numbers (printing would drop the zeros): %s" % [(m, c, tr) for m, c, tr, pr in facts_]
-        if bad is None and nalt:
+                if not digits and (other_pred or not cmps): bad = "not guarded by all(is_ascii_digit): %s" % [(m, tr, pr) for m, c, tr, pr in facts_]
+                elif not digits: unsure = "the digit test is not in a shape the rule reads: %s" % [(m, c, tr) for m, c, tr, pr in facts_]
+                elif not canonical and not cmps: bad = "digit strings with leading zeros are classified as numbers (printing would drop the zeros): %s" % [(m, c, tr) for m, c, tr, pr in facts_]
+                elif not canonical: unsure = "the leading-zero test is not in a shape the rule reads: %s" % [(m, c, tr) for m, c, tr, pr in facts_]
+        lossy = _lossy_value(F, g, bi, paths, payload)
+        if lossy: rep.bad(rule, ("lossy-arithmetic:" if "computed with" in lossy else "length-bound:") + key.rsplit("#", 1)[0], lossy, site)
+        if bad is None and unsure is not None:
+            rep.undecided(rule, "unrecognised-shape:" + key.rsplit("#", 1)[0], unsure, site)
+        elif bad is None and nalt:
             rep.ok(rule, "numeric classification only for canonical ASCII digit strings (%d path alternatives)" % nalt, sample=site, nontrivial_key=key)
         else:
             rep.bad(rule, "numeric-classification:" + key.rsplit("#", 1)[0], "a numeric identifier is built from text that is %s" % (bad or "unreachable?"), site)
